@@ -686,7 +686,8 @@ func genC05(rt *rapid.T) *c05Case {
 				}
 			}
 		case 9:
-			c.Steps = append(c.Steps, c05Step{Op: "sleep", Ms: rapid.IntRange(1, 3000).Draw(rt, "sleep")})
+			// (one pause in five is longer than any interval the library waits for on its own)
+			c.Steps = append(c.Steps, c05Step{Op: "sleep", Ms: rapid.OneOf(rapid.IntRange(1, 3000), rapid.IntRange(1, 3000), rapid.IntRange(1, 3000), rapid.IntRange(1, 3000), rapid.IntRange(5001, 40000)).Draw(rt, "sleep")})
 		}
 	}
 	if races > 0 {
@@ -709,6 +710,26 @@ func stalledPrefix(n int) []c05Step {
 func TestC05SendFails(t *testing.T) {
 	rec := NewRecorder("C05", "TestC05SendFails")
 	defer rec.Finish(t)
+	// slow answers: a response that comes long after the request completes the call whose context is still alive - however
+	// long that is (contexts without a deadline, and with one further away than the answer)
+	for _, role := range []string{"client", "server"} {
+		for _, tr := range []string{"tcp", "inproc"} {
+			for _, wait := range []int{4000, 5500, 12000, 61000} {
+				c := &c05Case{Role: role, Transport: tr, Steps: []c05Step{
+					{Op: "call", ID: "slow-a", Ctx: "none"}, {Op: "call", ID: "slow-b", Ctx: "deadline", Ms: wait + 30000}, {Op: "call", ID: "gone", Ctx: "deadline", Ms: wait / 2},
+					{Op: "sleep", Ms: wait}, {Op: "respond", ID: "slow-b"}, {Op: "respond", ID: "slow-a"}, {Op: "respond", ID: "gone"},
+				}}
+				o := &Outcome{}
+				var obs *c05Obs
+				rec.Journal(c)
+				synctest.Test(t, func(t *testing.T) { obs = runC05(c) })
+				judgeC05(c, obs, o)
+				o.NonTrivial = true
+				o.Class("answers-that-take-longer-than-the-library's-own-intervals")
+				rec.Eval(c, o)
+			}
+		}
+	}
 	for _, role := range []string{"client", "server"} {
 		for _, tr := range []string{"tcp", "inproc"} {
 			for _, n := range []int{3, 14} {
